@@ -156,7 +156,7 @@ def k2(ctx, fx, A, fn, b, node):
     # (c)(d)(e): equality guards
     decoded = lambda x: common._outcome_root(peel_to_call(x)) is node
     specs = [
-        ("c:typ", lambda l: is_field(peel(l), "typ") and decoded(peel(l).kids[0]), lambda r: may(r, lambda x: const_value(x) == "kb+jwt"),
+        ("c:typ", lambda l: is_field(core(l), "typ") and decoded(core(l).kids[0]), lambda r: may(r, lambda x: const_value(x) == "kb+jwt"),
          "header.typ == \"kb+jwt\"", "the KB-JWT header typ is not compared with \"kb+jwt\" on every accepting path"),
         ("d:nonce", lambda l: claim_get(l, "nonce", decoded), lambda r: must(r, lambda x: x.kind == "param" and x.fn is fn and (x.d.get("name") == "expected_nonce" or param_carries(fx, A, fn, x.d["idx"], "expected_nonce"))),
          "claims[\"nonce\"] == expected_nonce", "the KB-JWT nonce is not compared with expected_nonce on every accepting path"),
@@ -204,8 +204,19 @@ def peel_to_call(v):
     return v
 
 
+def core(l):
+    """the compared value without Option payload projections (`matches!(x.as_deref(), Some(v) if v == ..)` compares `(x as Some).0`)"""
+    v = vmodel._strip_payload(peel(l))
+    # `Some(Value::String(s)) if *s == expected`: the string payload of a JSON string value is the value compared as a string
+    g = 0
+    while v.kind == "field" and v.d.get("adt") == "serde_json::Value" and v.kids and peel(v.kids[0]).kind == "variant" and peel(v.kids[0]).d.get("variant") == "String" and g < 2:
+        v = vmodel._strip_payload(peel(peel(v.kids[0]).kids[0]))
+        g += 1
+    return v
+
+
 def claim_get(l, name, decoded):
-    l = peel(l)
+    l = core(l)
     if l.kind == "call" and l.d["term"].get("name") == "get" and len(l.kids) > 1 and const_value(l.kids[1]) == name:
         m = peel(l.kids[0])
         return is_field(m, "claims") and decoded(m.kids[0])
@@ -316,7 +327,7 @@ def k4(ctx, fx, A):
             n2 = fv.call_node(b2)
             if t2.get("name") == "get" and len(n2.kids) > 1 and isinstance(const_value(n2.kids[1]), str):
                 m = peel(n2.kids[0])
-                if is_field(m, "claims"):
+                if is_field(m, "claims") and common._outcome_root(peel_to_call(m.kids[0])) is node:
                     read.add(const_value(n2.kids[1]))
     written = set()
     typ_written = False
